@@ -161,12 +161,6 @@ def run_requests(case):
     clock.set_now(now)
     labels = set()
     nt = False
-    for idx, use in case.get('warm', []):
-        if idx < len(fed):
-            try:
-                sp.metadata.certs(IDPS[idx], 'any', use)
-            except Exception:
-                pass
     for m in case['messages']:
         issuer = SPS[m['issuer']] if m['issuer'] < len(fed) else 'https://sp-unknown.example.org'
         trusted = [k for u, k in fed[m['issuer']] if u in ('signing', None) and k not in ('keyname', 'damaged')] if m['issuer'] < len(fed) else []
